@@ -8,7 +8,7 @@
   is the text handed to `f64::from_str`, a parsed timestamp is its token text; the statement reads
   "parsing the printed text yields the lexical image of the tree".
 -/
-import Hs.Lemmas.FilterParseSk
+import Hs.Lemmas.FilterParse
 import Hs.Thm.C01
 namespace Hs.C08
 open Hs Hs.FText
@@ -41,45 +41,81 @@ unambiguous zone — and at most 64 nested groups): printing and parsing returns
 def C08_full (WFf : Ors → Prop) : Prop :=
   ∀ f, WFf f → filterOfBytes (printFilter f) = .ok (lexImageO f)
 
-/-! ### proved: the skeleton of the grammar, for all trees -/
+/-! ### proved: a fragment of the grammar, for all of its trees -/
 
-/-- Skeleton trees: every term is `tag`, `not tag` or a parenthesised group, over paths of one or
-more identifier segments (`a->b->c`); any number of `and` / `or` operands, any nesting up to the
+/-- The proved fragment: terms `tag`, `not tag`, `^symbol`, `path *== @ref`,
+`rel? [^symbol] [@ref]`, `path op literal` for the six operators with a Bool, Symbol or Ref literal,
+and parenthesised groups — over paths of one or more identifier segments (`a->b->c`, a lone `not`
+excluded), id-alphabet Refs and Symbols; any number of `and` / `or` operands, any nesting up to the
 parser's limit. -/
-def Skeleton (f : Ors) : Prop := f ≠ .nil ∧ AllO f ∧ nestO f ≤ 64
+def Fragment (f : Ors) : Prop := f ≠ .nil ∧ AllO f ∧ nestO f ≤ 64
+
+theorem lexImage_lit (v : Val) (h : OkLit v) : Hs.C01.lexImage v = v := by
+  cases v <;> simp [OkLit] at h <;> simp [Hs.C01.lexImage]
 
 mutual
-theorem lexImageT_skel : (t : Term) → SkT t → lexImageT t = t
-  | .parens o, h => by simp [lexImageT, lexImageO_skel o h.2]
+theorem lexImageT_ok : (t : Term) → OkT t → lexImageT t = imgT t
+  | .parens o, h => by simp [lexImageT, imgT, lexImageO_ok o h.2]
   | .has _, _ => rfl
   | .missing _, _ => rfl
-  | .isA _, h => absurd h (by simp [SkT])
-  | .weq _ _, h => absurd h (by simp [SkT])
-  | .rel _ _ _, h => absurd h (by simp [SkT])
-  | .cmp _ _ _, h => absurd h (by simp [SkT])
-theorem lexImageA_skel : (a : Ands) → AllA a → lexImageA a = a
+  | .isA _, _ => rfl
+  | .weq _ _, _ => rfl
+  | .rel _ _ Option.none, _ => rfl
+  | .rel _ _ (some _), _ => rfl
+  | .cmp p op v, h => by simp [lexImageT, imgT, lexImage_lit v h.2]
+theorem lexImageA_ok : (a : Ands) → AllA a → lexImageA a = imgA a
   | .nil, _ => rfl
-  | .cons t ts, h => by simp [lexImageA, lexImageT_skel t h.1, lexImageA_skel ts h.2]
-theorem lexImageO_skel : (o : Ors) → AllO o → lexImageO o = o
+  | .cons t ts, h => by simp [lexImageA, imgA, lexImageT_ok t h.1, lexImageA_ok ts h.2]
+theorem lexImageO_ok : (o : Ors) → AllO o → lexImageO o = imgO o
   | .nil, _ => rfl
-  | .cons a as, h => by simp [lexImageO, lexImageA_skel a h.1.2, lexImageO_skel as h.2]
+  | .cons a as, h => by simp [lexImageO, imgO, lexImageA_ok a h.1.2, lexImageO_ok as h.2]
 end
 
-/-- **print-then-parse is the identity on every skeleton tree** — unbounded in the number of
-operands, the length of paths and identifiers, and (up to the limit of 64) the nesting.
-This is `C08_full` restricted to `Skeleton`.  Missing for the full statement: the terms with
-literals and sigils (`^sym`, `*==`, `rel?`, comparisons) — each needs the framing lemma of the Zinc
-reader it calls (`parse_symbol`, `parse_ref`, `parse_str`, `parse_uri`, `parse_number_date_time`),
-which are exercised by the correspondence runs on every kind instead. -/
-theorem C08_skeleton_partial : C08_full Skeleton := by
+/-- **print-then-parse is the identity on every tree of the fragment** — unbounded in the number of
+operands, the length of paths, identifiers, Ref ids and Symbols, and (up to the limit of 64) the
+nesting.  This is `C08_full` restricted to `Fragment`.  Missing for the full statement: comparison
+literals of the kinds Str, Uri, Number, Date, Time, DateTime and Ref with a display name — each
+needs the framing lemma of the Zinc reader it goes through (`parse_str`, `parse_uri`,
+`parse_number_date_time`), which the correspondence runs exercise on every kind instead. -/
+theorem C08_fragment_partial : C08_full Fragment := by
   intro f ⟨hne, hall, hd⟩
-  rw [lexImageO_skel f hall]
-  exact print_parse_skel f hne hall hd
+  rw [lexImageO_ok f hall]
+  exact print_parse f hne hall hd
+
+mutual
+/-- only `tag`, `not tag` and groups -/
+def tagsOnlyT : Term → Bool
+  | .parens o => tagsOnlyO o
+  | .has _ => true
+  | .missing _ => true
+  | _ => false
+def tagsOnlyA : Ands → Bool
+  | .nil => true
+  | .cons t ts => tagsOnlyT t && tagsOnlyA ts
+def tagsOnlyO : Ors → Bool
+  | .nil => true
+  | .cons a as => tagsOnlyA a && tagsOnlyO as
+end
+
+/-- Skeleton trees: every term is `tag`, `not tag` or a parenthesised group. -/
+def Skeleton (f : Ors) : Prop := Fragment f ∧ tagsOnlyO f = true
+
+/-- the skeleton level of the grammar: precedence, grouping, where a path ends -/
+theorem C08_skeleton_partial : C08_full Skeleton := fun f h => C08_fragment_partial f h.1
 
 /-! ### consequences spelled out -/
 
 def seg (s : String) : List Char := s.toList
 def tag (s : String) : Term := .has [seg s]
+
+/-- each literal with its exact value: a comparison with a Bool, Symbol or Ref literal, printed, parses
+to that comparison — for every operator, every identifier path, every such literal -/
+theorem literal_exact (p : Path) (op : CmpOp) (v : Val) (hp : WFPath p) (np : p ≠ kwNot) (hv : OkLit v) :
+    filterOfBytes (printPath p ++ [32] ++ printOp op ++ [32] ++ printVal v)
+      = .ok (.cons (.cons (.cmp p op v) .nil) .nil) := by
+  have h := C08_fragment_partial (.cons (.cons (.cmp p op v) .nil) .nil)
+    ⟨by simp, by simp [AllO, AllA, OkT, hp, np, hv], by simp [nestO, nestA, nestT]⟩
+  simpa [printFilter, printOrs, printAnds, printTerm, lexImageO, lexImageA, lexImageT, lexImage_lit v hv] using h
 
 /-- precedence: `and` binds tighter than `or` — `a or b and c` is `a or (b and c)`, for all
 identifiers -/
@@ -87,9 +123,9 @@ theorem precedence (a b c : List Char) (ha : IdSeg a) (hb : IdSeg b) (hc : IdSeg
     (na : [a] ≠ kwNot) (nb : [b] ≠ kwNot) (nc : [c] ≠ kwNot) :
     filterOfBytes (printPath [a] ++ sepOr ++ (printPath [b] ++ sepAnd ++ printPath [c]))
       = .ok (.cons (.cons (.has [a]) .nil) (.cons (.cons (.has [b]) (.cons (.has [c]) .nil)) .nil)) := by
-  have h := C08_skeleton_partial
+  have h := C08_fragment_partial
     (.cons (.cons (.has [a]) .nil) (.cons (.cons (.has [b]) (.cons (.has [c]) .nil)) .nil))
-    ⟨by simp, by simp [AllO, AllA, SkT, WFPath, ha, hb, hc, na, nb, nc], by simp [nestO, nestA, nestT]⟩
+    ⟨by simp, by simp [AllO, AllA, OkT, WFPath, ha, hb, hc, na, nb, nc], by simp [nestO, nestA, nestT]⟩
   simpa [printFilter, printOrs, printAnds, printTerm, lexImageO, lexImageA, lexImageT] using h
 
 /-- a parenthesised group is one term: `( a or b ) and c` keeps the `or` below the `and` -/
@@ -98,10 +134,10 @@ theorem grouping (a b c : List Char) (ha : IdSeg a) (hb : IdSeg b) (hc : IdSeg c
     filterOfBytes ([40, 32] ++ (printPath [a] ++ sepOr ++ printPath [b]) ++ [32, 41] ++ sepAnd ++ printPath [c])
       = .ok (.cons (.cons (.parens (.cons (.cons (.has [a]) .nil) (.cons (.cons (.has [b]) .nil) .nil)))
                (.cons (.has [c]) .nil)) .nil) := by
-  have h := C08_skeleton_partial
+  have h := C08_fragment_partial
     (.cons (.cons (.parens (.cons (.cons (.has [a]) .nil) (.cons (.cons (.has [b]) .nil) .nil)))
                (.cons (.has [c]) .nil)) .nil)
-    ⟨by simp, by simp [AllO, AllA, SkT, WFPath, ha, hb, hc, na, nb, nc], by simp [nestO, nestA, nestT]⟩
+    ⟨by simp, by simp [AllO, AllA, OkT, WFPath, ha, hb, hc, na, nb, nc], by simp [nestO, nestA, nestT]⟩
   simpa [printFilter, printOrs, printAnds, printTerm, lexImageO, lexImageA, lexImageT] using h
 
 /-- a path ends at the first token that is not `->`: a multi-segment path followed by `and` and
@@ -109,8 +145,8 @@ another term is two terms (the pinned tree read `d->b and c` as the one path `d-
 theorem path_ends (p q : Path) (hp : WFPath p) (hq : WFPath q) (np : p ≠ kwNot) (nq : q ≠ kwNot) :
     filterOfBytes (printPath p ++ sepAnd ++ printPath q)
       = .ok (.cons (.cons (.has p) (.cons (.has q) .nil)) .nil) := by
-  have h := C08_skeleton_partial (.cons (.cons (.has p) (.cons (.has q) .nil)) .nil)
-    ⟨by simp, by simp [AllO, AllA, SkT, hp, hq, np, nq], by simp [nestO, nestA, nestT]⟩
+  have h := C08_fragment_partial (.cons (.cons (.has p) (.cons (.has q) .nil)) .nil)
+    ⟨by simp, by simp [AllO, AllA, OkT, hp, hq, np, nq], by simp [nestO, nestA, nestT]⟩
   simpa [printFilter, printOrs, printAnds, printTerm, lexImageO, lexImageA, lexImageT] using h
 
 /-! ### non-vacuity -/
@@ -123,13 +159,33 @@ def sample : Ors :=
     (.cons (.cons (.missing [seg "c"]) (.cons (.parens (.cons (.cons (tag "d") .nil) (.cons (.cons (tag "e") .nil) .nil))) .nil)) .nil)
 
 example : Skeleton sample := by
-  refine ⟨by simp [sample], ?_, by simp [sample, nestO, nestA, nestT, tag]⟩
+  refine ⟨⟨by simp [sample], ?_, by simp [sample, nestO, nestA, nestT, tag]⟩, by decide⟩
   have ids : ∀ x ∈ [seg "a", seg "b", seg "c", seg "d", seg "e"], IdSeg x := by decide
   have nots : [seg "d"] ≠ kwNot ∧ [seg "e"] ≠ kwNot ∧ [seg "a", seg "b"] ≠ kwNot := by decide
-  simp only [sample, tag, AllO, AllA, SkT, WFPath]
+  simp only [sample, tag, AllO, AllA, OkT, WFPath]
   simp [ids, nots]
 /-- … that prints as expected -/
 example : printFilter sample = bytes "a->b or not c and ( d or e )" := by decide +kernel
+
+/-- `siteRef->dis == true and ^hot-water and equipRef *== @p:demo:r:1 or inputs? ^air @ahu-1 and id != @x` is in the
+fragment … -/
+def sample2 : Ors :=
+  .cons (.cons (.cmp [seg "siteRef", seg "dis"] .eq (.bool true))
+          (.cons (.isA (seg "hot-water")) (.cons (.weq [seg "equipRef"] { id := seg "p:demo:r:1", dis := some (seg "Dis") }) .nil)))
+    (.cons (.cons (.rel (seg "inputs") (some (seg "air")) (some { id := seg "ahu-1", dis := none }))
+          (.cons (.cmp [seg "id"] .ne (.ref (seg "x") none)) .nil)) .nil)
+
+example : Fragment sample2 := by
+  refine ⟨by simp [sample2], ?_, by simp [sample2, nestO, nestA, nestT]⟩
+  have ids : ∀ x ∈ [seg "siteRef", seg "dis", seg "equipRef", seg "inputs", seg "id"], IdSeg x := by decide
+  have syms : SymSeg (seg "hot-water") ∧ SymSeg (seg "air") := by decide
+  have refs : RefSeg (seg "p:demo:r:1") ∧ RefSeg (seg "ahu-1") ∧ RefSeg (seg "x") := by decide
+  have nots : [seg "siteRef", seg "dis"] ≠ kwNot ∧ [seg "equipRef"] ≠ kwNot ∧ [seg "id"] ≠ kwNot := by decide
+  simp only [sample2, AllO, AllA, OkT, OkLit, WFPath]
+  simp [ids, syms, refs, nots]
+example : printFilter sample2 =
+    bytes "siteRef->dis == true and ^hot-water and equipRef *== @p:demo:r:1 or inputs? ^air @ahu-1 and id != @x" := by
+  decide +kernel
 example : WFPath [seg "d", seg "b"] ∧ [seg "d", seg "b"] ≠ kwNot := by simp only [WFPath]; decide
 example : IdSeg (seg "siteRef") ∧ [seg "siteRef"] ≠ kwNot := by decide
 
